@@ -17,9 +17,9 @@ from ..pathterms import PathT
 PROP = "C09"
 IMPORTS = ("Py Lang Defs Cond Dsl Check DocSem PathSpec Path Cast Str SpecDefs RuleDefs RuleSpec Rule Spec SpecIO Descr "
            "Inst Run RunRule RunSpec")
-THEOREMS = []
-FACT_LEMMAS = []
-DEPENDS = ["Spec.v", "SpecIO.v", "Descr.v", "RunSpec.v", "Gen/SpecGen.v", "Gen/TablesGen.v", "Gen/CallablesGen.v", "Inst.v", "Rule.v", "Path.v", "Cond.v"]
+THEOREMS = ['C09_leaf', 'C09_tree', 'C09_any_case', 'C09_alias_dtype', 'C09_alias_length', 'C09_alias_in_', 'C09_type_name', 'C09_positional_or_keyword']
+FACT_LEMMAS = ['C09Proof table facts (about 150 closed computations on the generated tables)', 'Tie.tie_build']
+DEPENDS = ['Py.v', 'Lang.v', 'Defs.v', 'Cond.v', 'Dsl.v', 'Check.v', 'DocSem.v', 'Inst.v', 'Gen/TablesGen.v', 'Gen/CallablesGen.v', 'Gen/SpecGen.v', 'Path.v', 'Cast.v', 'Str.v', 'SpecDefs.v', 'RuleDefs.v', 'Rule.v', 'Spec.v', 'SpecIO.v', 'Descr.v', 'Eq.v', 'RunSpec.v', 'SpecSpell.v', 'Proofs/Tie.v', 'Proofs/PyFacts.v', 'Proofs/C01Proof.v', 'Proofs/C02Proof.v', 'Proofs/RuleProof.v', 'Proofs/C03Proof.v', 'Proofs/C04Proof.v', 'RuleSpec.v', 'RuleTerms.v', 'PathSpec.v', 'RunRule.v', 'Run.v', 'Proofs/C09Proof.v', 'Properties/C09.v']
 ASSUMPTIONS = ["Layer P models CPython's operators (pysem)", "str.lower() / split are modelled for ASCII"]
 
 
